@@ -13,9 +13,9 @@ with a 50-digit rational `π`, total error < 1e-25) must lie in the returned int
 namespace C09
 open Model Proto
 
-/-! ## the `f64` instance of `Trig` (same libm as `f64::sin`, `f64::cos`, `f64::floor`) -/
+/-! ## the `f64` instance of `TrigOps` (same libm as `f64::sin`, `f64::cos`, `f64::floor`) -/
 def piF : Float := Float.ofBits 0x400921FB54442D18
-def trigF : Trig Float := ⟨Float.sin, Float.cos, Float.floor, piF, piF + piF, Float.ofBits 0x3FF921FB54442D18⟩
+def trigF : TrigOps Float := ⟨Float.sin, Float.cos, Float.floor, piF, piF + piF, Float.ofBits 0x3FF921FB54442D18⟩
 
 /-! ## certified rational sine -/
 /-- π to 50 decimals (error < 1e-50) -/
